@@ -76,6 +76,8 @@ def _run(job):
         out = []
         if job["kind"] == "root":
             ctxs = [(job["target"], run.analyze_root(f, job["target"], job["model"]))]
+        elif job["kind"] == "roundcls":
+            ctxs = [("round classes " + job["target"], run.analyze_round_classes(f, job["target"]))]
         elif job["kind"] == "masks":
             ctxs = [("masks", run.analyze_masks(f))]
         elif job["kind"] == "bits":
